@@ -24,12 +24,14 @@ PageBody(ids, s, p) == LET n == Len(ids)  hi == IF s + p - 1 < n THEN s + p - 1 
 Msg(body) == DynMsgRsp(45, 7, 0, B(body))
 ErrMsg(cc) == DynMsgRsp(45, 7, cc, B(<<220>>))
 \* one table entry per (entity, instance start) that a complete walk can ask for, plus every other start up to the count
+\* page size 0 = a BMC that returns a different number of record IDs (1..8) on every page, which the protocol allows
+PageAt(p, s) == IF p = 0 THEN <<8, 3, 8, 1, 5, 2, 7, 4>>[(s % 8) + 1] ELSE p
 MaxStart(j, lists) == IF Len(lists[j].ids) + 1 > 255 THEN 255 ELSE Len(lists[j].ids) + 1
 Table(lists, p) ==
   [kk \in UNION { { Hex2(lists[j].e) \o Hex2(s) : s \in 1..MaxStart(j, lists) } : j \in 1..Len(lists) } |->
      LET j == CHOOSE x \in 1..Len(lists) : \E s \in 1..MaxStart(x, lists) : kk = Hex2(lists[x].e) \o Hex2(s)
          s == CHOOSE y \in 1..MaxStart(j, lists) : kk = Hex2(lists[j].e) \o Hex2(y)
-     IN IF lists[j].err THEN ErrMsg(204) ELSE Msg(PageBody(lists[j].ids, s, p))]
+     IN IF lists[j].err THEN ErrMsg(204) ELSE Msg(PageBody(lists[j].ids, s, PageAt(p, s)))]
 Rules(lists, p) ==
   << [rule |-> "sensor-info", when |-> <<IsSensorInfo>>,
       datagrams |-> << Dg(DynSessPacket(S, <<1, 0, 0, 0>>,
@@ -41,7 +43,7 @@ Scenario(id, k, ci, cd, ipmiErr, p) ==
                                          ELSE [e |-> Dcmi[j - 3], ids |-> Ids(k, j, cd[j - 3]), err |-> FALSE]]
       useDcmi == ipmiErr \/ (ci[1] + ci[2] + ci[3] = 0)
       pick(j) == IF useDcmi THEN lists[j + 3].ids ELSE lists[j].ids
-      pages(n) == (n \div p) + 2
+      pages(n) == IF p = 0 THEN n + 2 ELSE (n \div p) + 2
   IN [id |-> id, prefix |-> "hs",
       info |-> [family |-> "dcmi-paging", insess |-> TRUE, integLen |-> S.integLen, bmcSid |-> S.bmcSid, page |-> p, ipmi |-> ci, dcmi |-> cd, ipmiErr |-> ipmiErr],
       steps |-> << [k |-> "rules", rules |-> Rules(lists, p)],
@@ -57,6 +59,9 @@ Scripts ==
   \cup { Scenario("fb-" \o ToString(n) \o "-" \o ToString(p) \o (IF er THEN "E" ELSE "Z"), 900 + n * 8 + p, IF er THEN <<3, 1, 2>> ELSE <<0, 0, 0>>, <<n, n % 5, (n * 3) % 11>>, er, p)
            : n \in (Counts \cap 0..64), p \in Pages, er \in BOOLEAN }
   \cup { Scenario("none-" \o ToString(p), 77, <<0, 0, 0>>, <<0, 0, 0>>, FALSE, p) : p \in Pages }
+  \cup { Scenario("var-" \o ToString(n) \o "-" \o ToString(v), 500 + n, <<IF v = 0 THEN n ELSE 2, IF v = 1 THEN n ELSE 5, IF v = 2 THEN n ELSE 11>>, <<2, 0, 1>>, FALSE, 0)
+           : n \in (IF Full THEN 0..255 ELSE {0, 1, 7, 8, 9, 12, 20, 30, 64, 129, 255}), v \in 0..2 }
+  \cup { Scenario("varfb-" \o ToString(n), 600 + n, <<0, 0, 0>>, <<n, 9, 20>>, FALSE, 0) : n \in {1, 8, 20, 30} }
 Header == [header |-> TRUE, family |-> "dcmi", defs |-> SessionDefs(S) @@ [ReqPlainT |-> ReqPlain(S)], stable |-> <<"SIK", "K1", "K2">>,
            session |-> SessionRecipes(S), prefixes |-> [hs |-> HandshakeSteps(S)]]
 ASSUME PrintT(<<"HEADER", ToJson(Header)>>)
